@@ -4,6 +4,6 @@
 cd /verif || exit 2
 [ -n "$(git -C /repo status --short | grep -v '^??')" ] && { echo "REFUSED: /repo has uncommitted changes (commit the hook / fix first)"; exit 1; }
 python3 tools/mkmanifest.py >/dev/null || exit 1
-python3-vt tools/validate.py | tail -1
+python3-vt tools/validate.py > out/validate.log 2>&1 || { echo "REFUSED: MANIFEST.json does not validate"; tail -3 out/validate.log; exit 1; }; tail -1 out/validate.log
 tools/runall.sh > out/runall.log 2>&1 || { echo "REFUSED: runall.sh is not green"; grep -v " 0 violations" out/runall.log | head; exit 1; }
 git add -A && git commit -q -m "$1" && git log --oneline | head -1
